@@ -1664,6 +1664,6 @@ class GroupLasso(LinearModel, RegressorMixin):
         solver = GroupBCD(
             self.max_iter, self.max_epochs, self.p0, tol=self.tol,
             fit_intercept=self.fit_intercept, warm_start=self.warm_start,
-            verbose=self.verbose)
+            ws_strategy=self.ws_strategy, verbose=self.verbose)
 
         return _glm_fit(X, y, self, quad_group, group_penalty, solver)
